@@ -622,7 +622,7 @@ theorem frel_rqMove (s : BSt) (i : Nat) (st : Stmt) (rest : List Stmt) : FRel s 
 theorem frel_readQueue (hrel : ∀ s k, FRel s (inj s k)) (tsNow : Option Nat) (i : Nat) (fuel : Nat) :
     ∀ (total : Nat) (s : BSt), FRel s (Backend.readQueue inj tsNow i fuel total s) := by
   induction fuel with
-  | zero => intro total s; exact FRel.refl _
+  | zero => intro total s; rw [readQueue_zero]; exact frel_rqFin s i total
   | succ n ih =>
     intro total s
     rw [readQueue_succ]
